@@ -144,6 +144,8 @@ class FormulaGen(object):
         r, m, c = self.rnd, self.mgr, self.cfg
         g = lambda ty: self.gen(ty, d - 1 - (1 if r.random() < 0.3 else 0))
         generic = ["ite"]
+        if c.quantifiers and not t.is_bool_type():
+            generic.append("qite")       # a quantifier below a theory term (condition of a term-level ITE)
         if c.uf and any(fn.symbol_type().return_type == t for fn in self.funs):
             generic.append("uf")
         if c.arrays and any(a.elem_type == t for a in self.array_types):
@@ -190,6 +192,10 @@ class FormulaGen(object):
         k = r.choice(ops + generic)
         if k == "ite":
             return m.Ite(g(BOOL), g(t), g(t))
+        if k == "qite":
+            ty = r.choice([x for x in self.types if not x.is_array_type()])
+            q = (m.ForAll if r.random() < 0.5 else m.Exists)([r.choice(self.syms[ty])], g(BOOL))
+            return m.Ite(q, g(t), g(t))
         if k == "uf":
             fn = r.choice([fn for fn in self.funs if fn.symbol_type().return_type == t])
             return m.Function(fn, [g(p) for p in fn.symbol_type().param_types])
